@@ -129,7 +129,47 @@ func checkMapContract(n datamodel.Node, neverKeys []string) (pairs int, err erro
 			return pairs, fmt.Errorf("native iterator yielded %d pairs, MapIterator %d", cnt, pairs)
 		}
 	}
-	for k, cs := range yielded {
+	// keys in the order they were first yielded (not Go's map order), with the key yielded just before their LAST occurrence
+	var distinct []string
+	predOfLast := map[string]string{}
+	{
+		seen := map[string]bool{}
+		for i, r := range retained {
+			if !seen[r.ks] {
+				seen[r.ks] = true
+				distinct = append(distinct, r.ks)
+			}
+			if i > 0 && retained[i-1].ks != r.ks {
+				predOfLast[r.ks] = retained[i-1].ks
+			} else if i > 0 {
+				delete(predOfLast, r.ks)
+			}
+		}
+	}
+	for di, k := range distinct {
+		cs := yielded[k]
+		// a lookup is a function of the node and the key: between the entry points other keys are looked up (the neighbour
+		// of a later duplicate, the first key of the listing) - for duplicated keys and for the first keys of every listing
+		touch := func(which int) {
+			if len(cs) < 2 && di >= 64 {
+				return
+			}
+			other, ok := predOfLast[k]
+			if which == 1 || !ok {
+				other, ok = distinct[0], distinct[0] != k
+			}
+			if ok {
+				switch which {
+				case 0:
+					_, _ = n.LookupByString(other)
+				case 1:
+					_, _ = n.LookupBySegment(datamodel.PathSegmentOfString(other))
+				default:
+					_, _ = n.LookupByNode(basicnode.NewString(other))
+				}
+			}
+		}
+		touch(2)
 		v1, err := n.LookupByString(k)
 		if err != nil {
 			return pairs, fmt.Errorf("yielded key %q is not found by LookupByString: %v", k, err)
@@ -147,15 +187,18 @@ func checkMapContract(n datamodel.Node, neverKeys []string) (pairs int, err erro
 		if !ok {
 			return pairs, fmt.Errorf("LookupByString(%q) = %s which was never yielded under that key (%v)", k, c1, cs)
 		}
+		touch(0)
 		v2, e2 := n.LookupByNode(basicnode.NewString(k))
+		touch(1)
 		v3, e3 := n.LookupBySegment(datamodel.PathSegmentOfString(k))
+		touch(2)
 		if e2 != nil || e3 != nil {
 			return pairs, fmt.Errorf("key %q: LookupByNode err %v, LookupBySegment err %v", k, e2, e3)
 		}
 		c2, _ := linkOf(v2)
 		c3, _ := linkOf(v3)
 		if c2 != c1 || c3 != c1 {
-			return pairs, fmt.Errorf("key %q: entry points disagree: ByString %s, ByNode %s, BySegment %s", k, c1, c2, c3)
+			return pairs, fmt.Errorf("key %q (yielded %d times): entry points disagree (other keys were looked up in between): ByString %s, ByNode %s, BySegment %s", k, len(cs), c1, c2, c3)
 		}
 		if hasNative {
 			l := nd.Lookup(pbString(k))
